@@ -553,9 +553,12 @@ class Unit:
             if n == 0:
                 raise LostAnchor('item %s: //@sub /%s/ matched nothing' % (pat, a))
             self.subs_applied.append(dict(item=pat, regex=a, repl=b, n=n))
-        self.functions.append(dict(name='item:' + pat, file=rel, sha=rsx.sha(it['full']),
+        # units sharing one template share one pin file: an item of the same name in mmap/xen.rs and
+        # mmap/unix.rs (MmapRegion) must not collide there
+        iname = 'item:' + ('xen:' if rel.endswith('mmap/xen.rs') and 'MmapRegion' in pat else '') + pat
+        self.functions.append(dict(name=iname, file=rel, sha=rsx.sha(it['full']),
                                    kind='item'))
-        self.emit(text, fn='item:' + pat, kind='item')
+        self.emit(text, fn=iname, kind='item')
         return i + 1
 
     def do_fn(self, i):
